@@ -1,3 +1,214 @@
-From CB Require Import Model.ModArith.
+(** C07 — modular addition, subtraction, negation, doubling and the special-modulus (p = 2^BITS - c) variants,
+    including the HAC 14.47 reduction of mul_mod_special.  Statements only; every statement is for ALL limb
+    counts and all word values.  Proved outright: add_mod, double_mod, sub_mod, neg_mod, add/sub/neg_mod_special,
+    mac_by_limb, and the multi-limb (n >= 2) reduction of mul_mod_special GIVEN only that the multiplication routine
+    returns the double-width product (C03).  The one-limb branch of mul_mod_special is proved GIVEN [recip_ok]
+    (the 64-bit Newton reciprocal of 2^64 - c is exact: C02).  mul_mod_vartime / MulMod are tied to the spec
+    GIVEN the product (C03) and the wide Knuth remainder (C02); mul_mod (Montgomery, C08) is value-level in the model. *)
+From CB Require Import Model.Limbs Model.AddSub Model.Mul Model.Div Model.ModArith
+  Proofs.WordP Proofs.LimbsP Proofs.AddSubP Proofs.DivP Proofs.ModArithP Proofs.ModArithTablesP.
+From Coq Require Import ZArith List String.
+Open Scope Z_scope.
+Notation length := List.length.
+
 Theorem placeholder : True. Proof. exact I. Qed.
 Print Assumptions placeholder.
+
+(** add_mod: add, trial-subtract p, re-add p under sbb(carry, 0, borrow); exact also when a + b overflows 2^BITS *)
+Theorem C07_add_mod_correct : forall a b p,
+  wf a -> wf b -> wf p -> length a = length b -> length a = length p ->
+  eval a < eval p -> eval b < eval p ->
+  eval (add_mod a b p) = (eval a + eval b) mod eval p
+  /\ wf (add_mod a b p) /\ length (add_mod a b p) = length a.
+Proof. exact add_mod_correct. Qed.
+Print Assumptions C07_add_mod_correct.
+
+(** the shared tail of add_mod / double_mod: any (n+1)-limb value below 2p is reduced to its residue *)
+Theorem C07_add_mod_tail_correct : forall w carry p,
+  wf w -> wf p -> length w = length p -> 0 <= carry <= 1 ->
+  0 <= eval w + Bn (length w) * carry < 2 * eval p ->
+  eval (add_mod_tail w carry p) = (eval w + Bn (length w) * carry) mod eval p
+  /\ wf (add_mod_tail w carry p) /\ length (add_mod_tail w carry p) = length w.
+Proof. exact add_mod_tail_correct. Qed.
+Print Assumptions C07_add_mod_tail_correct.
+
+Theorem C07_double_mod_correct : forall a p,
+  wf a -> wf p -> length a = length p -> eval a < eval p ->
+  eval (double_mod a p) = (2 * eval a) mod eval p
+  /\ wf (double_mod a p) /\ length (double_mod a p) = length a.
+Proof. exact double_mod_correct. Qed.
+Print Assumptions C07_double_mod_correct.
+
+Theorem C07_sub_mod_correct : forall a b p,
+  wf a -> wf b -> wf p -> length a = length b -> length a = length p ->
+  eval a < eval p -> eval b < eval p ->
+  eval (sub_mod a b p) = (eval a - eval b) mod eval p
+  /\ wf (sub_mod a b p) /\ length (sub_mod a b p) = length a.
+Proof. exact sub_mod_correct. Qed.
+Print Assumptions C07_sub_mod_correct.
+
+Theorem C07_neg_mod_correct : forall a p,
+  wf a -> wf p -> length a = length p -> eval a < eval p ->
+  eval (neg_mod a p) = (- eval a) mod eval p
+  /\ wf (neg_mod a p) /\ length (neg_mod a p) = length a.
+Proof. exact neg_mod_correct. Qed.
+Print Assumptions C07_neg_mod_correct.
+
+(** the negation of zero is zero (not p) *)
+Theorem C07_neg_mod_zero : forall a p,
+  wf a -> wf p -> length a = length p -> eval a = 0 -> 0 < eval p -> eval (neg_mod a p) = 0.
+Proof. exact neg_mod_zero. Qed.
+Print Assumptions C07_neg_mod_zero.
+
+(** special modulus p = 2^BITS - c, 1 <= c <= MAX *)
+Theorem C07_add_mod_special_correct : forall a b c,
+  wf a -> wf b -> length a = length b -> 1 <= c < B -> 0 < psp (length a) c ->
+  eval a < psp (length a) c -> eval b < psp (length a) c ->
+  eval (add_mod_special a b c) = (eval a + eval b) mod psp (length a) c
+  /\ wf (add_mod_special a b c) /\ length (add_mod_special a b c) = length a.
+Proof. exact add_mod_special_correct. Qed.
+Print Assumptions C07_add_mod_special_correct.
+
+Theorem C07_sub_mod_special_correct : forall a b c,
+  wf a -> wf b -> length a = length b -> 1 <= c < B -> 0 < psp (length a) c ->
+  eval a < psp (length a) c -> eval b < psp (length a) c ->
+  eval (sub_mod_special a b c) = (eval a - eval b) mod psp (length a) c
+  /\ wf (sub_mod_special a b c) /\ length (sub_mod_special a b c) = length a.
+Proof. exact sub_mod_special_correct. Qed.
+Print Assumptions C07_sub_mod_special_correct.
+
+Theorem C07_neg_mod_special_correct : forall a c,
+  wf a -> 1 <= c < B -> 0 < psp (length a) c -> eval a < psp (length a) c ->
+  eval (neg_mod_special a c) = (- eval a) mod psp (length a) c
+  /\ wf (neg_mod_special a c) /\ length (neg_mod_special a c) = length a.
+Proof. exact neg_mod_special_correct. Qed.
+Print Assumptions C07_neg_mod_special_correct.
+
+(** mac_by_limb: a + b*c + carry over any number of limbs, exact with the outgoing carry word *)
+Theorem C07_mac_by_limb_correct : forall a b c carry r co,
+  wf a -> wf b -> length a = length b -> is_word c -> is_word carry ->
+  mac_by_limb a b c carry = (r, co) ->
+  eval r + Bn (length a) * co = eval a + eval b * c + carry /\ wf r /\ length r = length a /\ is_word co.
+Proof. exact mac_by_limb_correct. Qed.
+Print Assumptions C07_mac_by_limb_correct.
+
+(** HAC 14.47 on integers: for N >= B^2 and p = N - c, any double-width x = lo + N*hi is reduced to x mod p by
+    one multiply-accumulate, the addition of (k1 + 1)*c (NOT wrapped to a word) and a conditional subtraction of c *)
+Theorem C07_hac1447 : forall N c lo hi lo1 k1 lo2 k2,
+  B * B <= N -> 1 <= c < B ->
+  0 <= lo < N -> 0 <= hi < N ->
+  0 <= lo1 < N -> 0 <= k1 -> lo1 + N * k1 = lo + hi * c ->
+  0 <= lo2 < N -> 0 <= k2 <= 1 -> lo2 + N * k2 = lo1 + (k1 + 1) * c ->
+  (lo2 - (if k2 =? 0 then c else 0)) mod N = (lo + N * hi) mod (N - c).
+Proof. exact hac1447. Qed.
+Print Assumptions C07_hac1447.
+
+(** mul_mod_special, n >= 2 limbs: whatever double-width value (lo, hi) the multiplication returns is reduced to
+    its canonical residue mod 2^BITS - c (a, b need not even be reduced) *)
+Theorem C07_mul_mod_special_reduction : forall dbg mulf a b c lo hi,
+  (2 <= length a)%nat -> 1 <= c < B ->
+  mulf a b = (lo, hi) -> wf lo -> wf hi -> length lo = length a -> length hi = length a ->
+  exists r, mul_mod_special dbg mulf a b c = Some r
+    /\ eval r = (eval lo + Bn (length a) * eval hi) mod psp (length a) c
+    /\ wf r /\ length r = length a.
+Proof. exact mul_mod_special_wide_correct. Qed.
+Print Assumptions C07_mul_mod_special_reduction.
+
+(** mul_mod_special, n >= 2 limbs, given that (lo, hi) is the product *)
+Theorem C07_mul_mod_special_correct_given_mul : forall dbg mulf a b c lo hi,
+  wf a -> wf b -> length a = length b -> (2 <= length a)%nat -> 1 <= c < B ->
+  eval a < psp (length a) c -> eval b < psp (length a) c ->
+  mulf a b = (lo, hi) -> wf lo -> wf hi -> length lo = length a -> length hi = length a ->
+  eval lo + Bn (length a) * eval hi = eval a * eval b ->
+  exists r, mul_mod_special dbg mulf a b c = Some r
+    /\ eval r = (eval a * eval b) mod psp (length a) c
+    /\ wf r /\ length r = length a.
+Proof. exact mul_mod_special_correct. Qed.
+Print Assumptions C07_mul_mod_special_correct_given_mul.
+
+(** mul_mod_special, one limb: mul_rem by d = 2^64 - c through its reciprocal *)
+Theorem C07_mul_mod_special_one_limb_given_recip : forall dbg mulf a b c,
+  wf a -> wf b -> length a = 1%nat -> length b = 1%nat -> 1 <= c < B ->
+  recip_ok (r_d (recip_new (B - c))) (reciprocal (r_d (recip_new (B - c)))) ->
+  exists r, mul_mod_special dbg mulf a b c = Some r
+    /\ eval r = (eval a * eval b) mod psp (length a) c /\ wf r /\ length r = length a.
+Proof. exact mul_mod_special_one_limb_given_recip'. Qed.
+Print Assumptions C07_mul_mod_special_one_limb_given_recip.
+
+(** mul_mod_special at every width *)
+Theorem C07_mul_mod_special_all_widths_given_mul_recip : forall dbg mulf a b c,
+  wf a -> wf b -> length a = length b -> 1 <= c < B -> 0 < psp (length a) c ->
+  split_mul_ok mulf a b ->
+  recip_ok (r_d (recip_new (B - c))) (reciprocal (r_d (recip_new (B - c)))) ->
+  exists r, mul_mod_special dbg mulf a b c = Some r
+    /\ eval r = (eval a * eval b) mod psp (length a) c /\ wf r /\ length r = length a.
+Proof. exact mul_mod_special_all_widths_given_mul_recip. Qed.
+Print Assumptions C07_mul_mod_special_all_widths_given_mul_recip.
+
+(** computing `carry + 1` in a 64-bit word (the code before the fix) is wrong for c = MAX: witness a = b = 2^192 - 2^65 *)
+Theorem C07_mul_mod_special_wrapping_variant_refuted :
+  exists a c, wf a /\ 1 <= c < B /\ eval a < psp (length a) c /\
+    eval (mul_mod_special_wrapping uint_split_mul a a c) <> (eval a * eval a) mod psp (length a) c /\
+    option_map eval (mul_mod_special false uint_split_mul a a c) = Some ((eval a * eval a) mod psp (length a) c).
+Proof. exact mul_mod_special_wrapping_refuted. Qed.
+Print Assumptions C07_mul_mod_special_wrapping_variant_refuted.
+
+(** ---- the two op tables agree wherever the spec is defined ---- *)
+Theorem C07_tables_agree_addsubneg : forall dbg a k, wf_args a -> In k addsubneg_keys ->
+  run_op7 ops_modarith_spec k dbg a <> Unsupported ->
+  run_op7 ops_modarith_model k dbg a = run_op7 ops_modarith_spec k dbg a.
+Proof. exact tables_agree_addsubneg. Qed.
+Print Assumptions C07_tables_agree_addsubneg.
+
+Theorem C07_tables_agree_uint_mul_mod_special_given_mul_recip : forall dbg a, wf_args a ->
+  split_mul_ok uint_split_mul (arg 0 a) (arg 1 a) ->
+  recip_ok (r_d (recip_new (B - sarg 2 a))) (reciprocal (r_d (recip_new (B - sarg 2 a)))) ->
+  run_op7 ops_modarith_spec "uint.mul_mod_special" dbg a <> Unsupported ->
+  run_op7 ops_modarith_model "uint.mul_mod_special" dbg a = run_op7 ops_modarith_spec "uint.mul_mod_special" dbg a.
+Proof. exact tbl_uint_mul_mod_special_given_mul_recip. Qed.
+Print Assumptions C07_tables_agree_uint_mul_mod_special_given_mul_recip.
+
+Theorem C07_tables_agree_boxed_mul_mod_special_given_mul_recip : forall dbg a, wf_args a ->
+  split_mul_ok boxed_split_mul (arg 0 a) (arg 1 a) ->
+  recip_ok (r_d (recip_new (B - sarg 2 a))) (reciprocal (r_d (recip_new (B - sarg 2 a)))) ->
+  run_op7 ops_modarith_spec "boxed.mul_mod_special" dbg a <> Unsupported ->
+  run_op7 ops_modarith_model "boxed.mul_mod_special" dbg a = run_op7 ops_modarith_spec "boxed.mul_mod_special" dbg a.
+Proof. exact tbl_boxed_mul_mod_special_given_mul_recip. Qed.
+Print Assumptions C07_tables_agree_boxed_mul_mod_special_given_mul_recip.
+
+Theorem C07_tables_agree_uint_mul_mod_vartime_given_mul_rem : forall dbg a, wf_args a ->
+  split_mul_ok uint_split_mul (arg 0 a) (arg 1 a) -> rem_wide_ok (arg 2 a) -> ln 0 a = ln 2 a ->
+  run_op7 ops_modarith_spec "uint.mul_mod_vartime" dbg a <> Unsupported ->
+  run_op7 ops_modarith_model "uint.mul_mod_vartime" dbg a = run_op7 ops_modarith_spec "uint.mul_mod_vartime" dbg a.
+Proof. exact tbl_uint_mul_mod_vartime_given_mul_rem. Qed.
+Print Assumptions C07_tables_agree_uint_mul_mod_vartime_given_mul_rem.
+
+(** the MulMod trait panics exactly on p = 0 *)
+Theorem C07_tables_agree_uint_mul_mod_trait_given_mul_rem : forall dbg a, wf_args a ->
+  split_mul_ok uint_split_mul (arg 0 a) (arg 1 a) -> rem_wide_ok (arg 2 a) -> ln 0 a = ln 2 a ->
+  run_op7 ops_modarith_model "uint.mul_mod_trait" dbg a = run_op7 ops_modarith_spec "uint.mul_mod_trait" dbg a.
+Proof. exact tbl_uint_mul_mod_trait_given_mul_rem. Qed.
+Print Assumptions C07_tables_agree_uint_mul_mod_trait_given_mul_rem.
+
+(** mul_mod (Montgomery route, C08) is value-level in the model: only the domain split is compared *)
+Theorem C07_tables_agree_uint_mul_mod_value_level : forall dbg a,
+  run_op7 ops_modarith_spec "uint.mul_mod" dbg a <> Unsupported ->
+  run_op7 ops_modarith_model "uint.mul_mod" dbg a = run_op7 ops_modarith_spec "uint.mul_mod" dbg a.
+Proof. exact tbl_uint_mul_mod_value_level. Qed.
+Print Assumptions C07_tables_agree_uint_mul_mod_value_level.
+
+Theorem C07_tables_agree_boxed_mul_mod_value_level : forall dbg a,
+  run_op7 ops_modarith_spec "boxed.mul_mod" dbg a <> Unsupported ->
+  run_op7 ops_modarith_model "boxed.mul_mod" dbg a = run_op7 ops_modarith_spec "boxed.mul_mod" dbg a.
+Proof. exact tbl_boxed_mul_mod_value_level. Qed.
+Print Assumptions C07_tables_agree_boxed_mul_mod_value_level.
+
+(** non-vacuity: the hypotheses are satisfiable and the models compute the residues (a + b overflows 2^128 in the
+    first conjunct; mul_mod_special with c = MAX on three limbs in the last) *)
+Example C07_nonvacuous :
+  add_mod [MAXW; MAXW - 1] [MAXW - 1; MAXW - 1] [0; MAXW] = [MAXW - 2; MAXW - 1] /\
+  sub_mod [1; 0] [2; 0] [7; 5] = [6; 5] /\ neg_mod [0; 0] [7; 5] = [0; 0] /\
+  add_mod_special [MAXW - 5; MAXW] [MAXW - 5; MAXW] 3 = [MAXW - 8; MAXW] /\
+  mul_mod_special false uint_split_mul [0; MAXW - 1; MAXW] [0; MAXW - 1; MAXW] MAXW = Some [1; 2; 1] /\
+  run_op7 ops_modarith_spec "uint.add_mod" false [[5]; [6]; [7]] = Val [[4]].
+Proof. vm_compute. repeat split. Qed.
